@@ -64,10 +64,14 @@ class Tables:
         return val
 
     def row(self, day):
+        """The row of the day, with the UT1-UTC values of *both* files (they carry the same columns; which one a
+        database serves is its own business)."""
         if self.finals is None or self.finals2000 is None:
             return None
         if day in self.finals and day in self.finals2000:
-            return self.finals[day]
+            r = dict(self.finals[day])
+            r["ut1_utc_either"] = {self.finals[day]["ut1_utc"], self.finals2000[day]["ut1_utc"]}
+            return r
         return None
 
 
